@@ -314,7 +314,11 @@ func registerTLSAndReady() {
 		tls   bool
 	}{{"free-port", false, false}, {"free-port-tls", false, true}, {"port-in-use", true, false}} {
 		v := v
-		reg(&Scn{Name: "ready-" + v.name, Props: []string{"C17"}, Quick: 3, Thor: -1, Body: func() {
+		props := []string{"C17"}
+		if v.inUse {
+			props = []string{"C17", "C11"}
+		}
+		reg(&Scn{Name: "ready-" + v.name, Props: props, Quick: 3, Thor: -1, Body: func() {
 			w := NewWorld()
 			vrt.PermuteMaps = false
 			curSpec = nil
@@ -363,13 +367,22 @@ func registerTLSAndReady() {
 			vrt.WaitUntil("poller-done", func() bool { return pollerDone })
 			if v.inUse {
 				vrt.WaitUntil("run-done", func() bool { return w.RunDone })
-				if w.Srv.Ready() {
-					w.Notes["ready-true-after-failed-run"]++
-				}
+				vrt.GoNamed("poller2", func() {
+					if w.Srv.Ready() {
+						w.Notes["ready-true-after-failed-run"]++
+					}
+				})
 			}
 			w.Stop()
 		}, Check: func(x *vrt.Sched, w *World) []Finding {
 			var fs []Finding
+			if v.inUse && x.Deadlock && w.RunDone && w.StopDone == 0 {
+				for _, l := range x.Log {
+					if strings.Contains(l, "stop-called") {
+						return []Finding{{"C11", "Stop never returns after Run could not listen", strings.Join(x.Blocked, " ")}}
+					}
+				}
+			}
 			if v.inUse {
 				if w.RunDone && w.RunErr == nil {
 					fs = append(fs, Finding{"C17", "Run returns nil although the port is already in use", ""})
